@@ -20,7 +20,8 @@ pub struct Case {
     /// 0: built with defaults by the path itself. Otherwise the facts go through the Builder
     /// (`build_minimal`) and the public setters are called on the result: 1 categories then
     /// modifier, 2 modifier then categories, 3 categories only, 4 categories, modifier, categories,
-    /// 5 modifier only
+    /// 5 modifier only, 6 / 7 like 1 / 2 after both groups were filled with other terms through
+    /// `modifier_mut()` / `categories_mut()`
     #[serde(default)]
     pub setters: u8,
 }
@@ -30,12 +31,25 @@ fn build_with_setters(f: &Facts, sel: u8) -> Result<hpo::Ontology, String> {
     let mut o = via_builder(f, Finish::Minimal)?;
     guarded(|| -> Result<(), String> {
         let order: &[u8] = match sel {
-            1 => &[0, 1],
-            2 => &[1, 0],
+            1 | 6 => &[0, 1],
+            2 | 7 => &[1, 0],
             3 => &[0],
             4 => &[0, 1, 0],
             _ => &[1],
         };
+        if sel >= 6 {
+            // the groups were customised before (any terms of the ontology): the setters must
+            // replace, not extend, what they find
+            let ids: Vec<hpo::HpoTermId> = o.hpos().map(|t| t.id()).collect();
+            for (i, id) in ids.iter().enumerate() {
+                if i % 2 == 0 {
+                    o.modifier_mut().insert(*id);
+                }
+                if i % 3 != 1 {
+                    o.categories_mut().insert(*id);
+                }
+            }
+        }
         for step in order {
             if *step == 0 {
                 o.set_default_categories().map_err(|e| format!("set_default_categories: {e}"))?;
@@ -215,7 +229,7 @@ fn strategy(tier: Tier) -> BoxedStrategy<Case> {
         ],
         noise_strategy(),
         prop_oneof![8 => Just(0u8), 1 => Just(1u8), 1 => Just(2u8), 1 => Just(3u8)],
-        prop_oneof![5 => Just(0u8), 2 => 1u8..=5],
+        prop_oneof![5 => Just(0u8), 2 => 1u8..=7],
     )
         .prop_map(|(facts, path, noise, drop_roots, setters)| Case { base: OntCase { facts, path, noise }, drop_roots, setters })
         .boxed()
@@ -261,7 +275,7 @@ impl Property for C19 {
         "C19"
     }
     fn rule(&self) -> String {
-        "Generated: ontologies containing HP:0000001 and HP:0000118 with 0-5 further top-level branches, HP:0000118 usually (not always) below HP:0000001, childless top-level terms, terms below several categories and below both a modifier and a phenotype branch, detached terms; built with defaults through the Builder, own v1/v2/v3 bytes, as_bytes round trip and JAX files, or built minimally and classified by the public setters set_default_categories / set_default_modifier called in either order, alone or repeatedly; variants with one or both root terms removed. Oracle: modifier() = children(HP:1) without HP:118; categories() = that plus children(HP:118), ascending; per term is_modifier <=> the term or an ancestor is a modifier root; categories() = category terms among the term and its ancestors in ascending id order; building fails with an error (not a panic, not an ontology) iff a root term is missing. evaluations = ontologies classified. Non-trivial = some term lies in >=2 categories, there is >=1 modifier root and HP:118 has children (or: a missing-root variant); distinct = hash(facts, path).".into()
+        "Generated: ontologies containing HP:0000001 and HP:0000118 with 0-5 further top-level branches, HP:0000118 usually (not always) below HP:0000001, childless top-level terms, terms below several categories and below both a modifier and a phenotype branch, detached terms; built with defaults through the Builder, own v1/v2/v3 bytes, as_bytes round trip and JAX files, or built minimally and classified by the public setters set_default_categories / set_default_modifier called in either order, alone, repeatedly, or after both groups were customised through modifier_mut() / categories_mut(); variants with one or both root terms removed. Oracle: modifier() = children(HP:1) without HP:118; categories() = that plus children(HP:118), ascending; per term is_modifier <=> the term or an ancestor is a modifier root; categories() = category terms among the term and its ancestors in ascending id order; building fails with an error (not a panic, not an ontology) iff a root term is missing. evaluations = ontologies classified. Non-trivial = some term lies in >=2 categories, there is >=1 modifier root and HP:118 has children (or: a missing-root variant); distinct = hash(facts, path).".into()
     }
     fn assumptions(&self) -> Vec<String> {
         vec!["classification is defined on the facts: ancestors by BFS closure, roots by the documented rule of set_default_categories / set_default_modifier".into()]
